@@ -194,6 +194,7 @@ func (u *Unit) acquireGuard(st *State, sel *ast.SelectorExpr, mu LV, pos token.P
 		return
 	}
 	t := u.eng.lookupNamed(mu.keyT)
+	prev := st.clone() // this goroutine's latest view of the guarded state
 	for _, f := range g.Fields {
 		ft := pathType(t, f)
 		if ft == nil {
@@ -205,10 +206,16 @@ func (u *Unit) acquireGuard(st *State, sel *ast.SelectorExpr, mu LV, pos token.P
 		u.store(st, flv, nv)
 		u.havocReachable(st, ft)
 	}
+	env := map[string]Value{"self": scalar(types.NewPointer(t), mu.ref)}
 	if g.InvExp != nil {
 		c := &Clause{Text: g.Inv, File: g.File, Line: g.Line}
-		env := map[string]Value{"self": scalar(types.NewPointer(t), mu.ref)}
 		st.assume(u.specBoolAt(st, u.old, env, g.InvExp, c, token.NoPos))
+	}
+	if g.RelyExp != nil {
+		// other goroutines changed the guarded state only in ways allowed by the rely relation
+		c := &Clause{Text: g.Rely, File: g.File, Line: g.Line}
+		st.assume(u.specBoolAt(st, prev, env, g.RelyExp, c, token.NoPos))
+		u.lockSnaps[mu.keyT+"|"+mu.ref.S] = st.clone()
 	}
 }
 
@@ -226,14 +233,24 @@ func (u *Unit) havocReachable(st *State, t types.Type) {
 
 func (u *Unit) releaseGuard(st *State, sel *ast.SelectorExpr, mu LV, pos token.Pos) {
 	g := u.guardOf(mu)
-	if g == nil || g.InvExp == nil {
+	if g == nil {
 		return
 	}
 	t := u.eng.lookupNamed(mu.keyT)
-	c := &Clause{Text: g.Inv, File: g.File, Line: g.Line}
 	env := map[string]Value{"self": scalar(types.NewPointer(t), mu.ref)}
-	goal := u.specBoolAt(st, u.old, env, g.InvExp, c, token.NoPos)
-	u.oblige(st, "lockinv@"+exprText(sel.X), "lockinv", nil, goal, pos, g.Inv)
+	if g.InvExp != nil {
+		c := &Clause{Text: g.Inv, File: g.File, Line: g.Line}
+		goal := u.specBoolAt(st, u.old, env, g.InvExp, c, token.NoPos)
+		u.oblige(st, "lockinv@"+exprText(sel.X), "lockinv", nil, goal, pos, g.Inv)
+	}
+	if g.RelyExp != nil {
+		// guarantee: what this goroutine did while holding the lock is itself allowed by the relation
+		if snap, ok := u.lockSnaps[mu.keyT+"|"+mu.ref.S]; ok {
+			c := &Clause{Text: g.Rely, File: g.File, Line: g.Line}
+			goal := u.specBoolAt(st, snap, env, g.RelyExp, c, token.NoPos)
+			u.oblige(st, "guarantee@"+exprText(sel.X), "lockinv", nil, goal, pos, g.Rely)
+		}
+	}
 }
 
 func (e *Engine) lookupNamed(key string) types.Type {
